@@ -8,6 +8,8 @@ the property's rules; any new violated/blind obligation is a false alarm:
   swap-arms   if C: A else: B           ->  if not C: B else: A          (and `if not C` -> `if C`)
   flip-cmp    a < b                     ->  b > a                        (single-operator comparisons, all six ordering/equality ops)
   aug         x += e                    ->  x = x + e                    (and back)
+  insert      an unrelated statement (alternately a dead store `_vf_trace = None` and a logging call) inserted before one statement of the
+              function (every position, all nesting levels)
   reformat    nothing but the re-emission through ast.unparse (once per file)
 
 usage: refactorfuzz.py [Cnn ...] [-j N] [--kinds swap-arms,flip-cmp,aug,reformat]
@@ -35,6 +37,8 @@ def candidates(fn):
     """(kind, index among nodes of that kind in walk order)"""
     out = []
     k = {"swap-arms": 0, "flip-cmp": 0, "aug": 0}
+    npos = sum(len(b) for b in _stmt_lists(fn))
+    out += [("insert", i) for i in range(npos)]
     for n in ast.walk(fn):
         if isinstance(n, ast.If) and n.orelse and not (len(n.orelse) == 1 and isinstance(n.orelse[0], ast.If)):
             out.append(("swap-arms", k["swap-arms"]))
@@ -53,8 +57,36 @@ class _Rewrite(ast.NodeTransformer):
         self.kind, self.index, self.seen, self.done = kind, index, {"swap-arms": 0, "flip-cmp": 0, "aug": 0}, False
 
 
+def _stmt_lists(fn):
+    out = []
+    for n in ast.walk(fn):
+        for fld in ("body", "orelse", "finalbody"):
+            b = getattr(n, fld, None)
+            if isinstance(b, list) and b and isinstance(b[0], ast.stmt):
+                out.append(b)
+        if isinstance(n, ast.Try):
+            for h in n.handlers:
+                out.append(h.body)
+    return out
+
+
 def rewrite(fn, kind, index):
     """mutate fn in place; walk order must equal candidates()"""
+    if kind == "insert":
+        k = 0
+        for b in _stmt_lists(fn):
+            if index < k + len(b):
+                pos = index - k
+                if pos == 0 and isinstance(b[0], ast.Expr) and isinstance(b[0].value, ast.Constant) and isinstance(b[0].value.value, str):
+                    pos = 1  # never before a docstring
+                if index % 2 == 0:
+                    new = ast.Assign(targets=[ast.Name(id="_vf_trace", ctx=ast.Store())], value=ast.Constant(value=None))
+                else:
+                    new = ast.parse("logging.getLogger(__name__).debug('trace %s', 1)").body[0]
+                b.insert(pos, new)
+                return True
+            k += len(b)
+        return False
     k = 0
     for n in ast.walk(fn):
         if kind == "swap-arms" and isinstance(n, ast.If) and n.orelse and not (len(n.orelse) == 1 and isinstance(n.orelse[0], ast.If)):
@@ -118,7 +150,7 @@ def one(args):
 
 def main():
     args = sys.argv[1:]
-    jobs_n, repo, kinds, props = 12, "/repo", {"swap-arms", "flip-cmp", "aug", "reformat"}, []
+    jobs_n, repo, kinds, props = 12, "/repo", {"swap-arms", "flip-cmp", "aug", "reformat"}, []  # "insert" only on request (many variants)
     i = 0
     while i < len(args):
         if args[i] == "-j":
